@@ -25,6 +25,10 @@ pub enum Case {
     /// knots, order 3 at the ends and span mid points, order 4 in the natural layout (repeated end sites,
     /// second-derivative conditions)
     Long { k: usize, m: usize },
+    /// DIFFERENT spline objects solved one after the other on one thread with the same order, the same number of
+    /// knots, the same sites and end conditions, but different interior knots: every ordered pair; each must
+    /// reproduce the polynomial its data come from
+    TwoSplines { k: usize, natural: bool },
 }
 
 fn inverse_exact(b: &[Vec<Rat>]) -> Option<Vec<Vec<Rat>>> {
@@ -569,6 +573,103 @@ pub fn check(case: &Case, idx: u64, acc: &mut Acc) {
             acc.outcome(&(k, m, hash_f64s(&sf.c().as_ref().unwrap().to_vec())));
             acc.sample(cj);
         }
+        Case::TwoSplines { k, natural } => {
+            let (k, natural) = (*k, *natural);
+            let n = k + 2;
+            let ln = if natural { 2 } else { 0 };
+            let tau: Vec<f64> = if natural {
+                let mut v = vec![0.0];
+                v.extend((0..n - 2).map(|j| 4.0 * j as f64 / (n - 3) as f64));
+                v.push(4.0);
+                v
+            } else {
+                (0..n).map(|j| 4.0 * j as f64 / (n - 1) as f64).collect()
+            };
+            let grid = [0.5, 1.0, 1.5, 2.0, 2.5, 3.0, 3.5];
+            let mut tvs: Vec<Vec<f64>> = vec![];
+            for a in 0..grid.len() {
+                for b in a..grid.len() {
+                    if a == b && k < 3 {
+                        continue;
+                    }
+                    let mut t = vec![0.0; k];
+                    t.extend([grid[a], grid[b]]);
+                    t.extend(vec![4.0; k]);
+                    // Schoenberg-Whitney for the value sites (strictly inside the supports, the end points excepted)
+                    let vals: Vec<f64> = if natural { tau[1..n - 1].to_vec() } else { tau.clone() };
+                    let off = if natural { 1 } else { 0 };
+                    let ok = vals.iter().enumerate().all(|(j, x)| {
+                        let i = j + off;
+                        (t[i] < *x && *x < t[i + k]) || (*x == 0.0 && i == 0) || (*x == 4.0 && i == n - 1) || (natural && ((*x == 0.0 && i == 1) || (*x == 4.0 && i == n - 2)))
+                    });
+                    if ok {
+                        tvs.push(t);
+                    }
+                }
+            }
+            let deg = k - 1;
+            let poly = |mm: usize, x: f64| -> f64 {
+                // p(x) = sum_{d <= deg} (d + 1) (x / 4)^d and its derivatives
+                let mut v = 0.0;
+                for d in mm..=deg {
+                    let mut c = (d + 1) as f64;
+                    for q in 0..mm {
+                        c *= (d - q) as f64;
+                    }
+                    v += c * (x / 4.0).powi((d - mm) as i32) / 4.0_f64.powi(mm as i32);
+                }
+                v
+            };
+            let y: Vec<f64> = (0..n).map(|j| poly(if natural && (j == 0 || j == n - 1) { 2 } else { 0 }, tau[j])).collect();
+            let cj = || serde_json::to_value(case).unwrap();
+            // each knot vector on its own first (a knot vector for which the first solve of this case is already off is a
+            // different matter and is reported as such)
+            let mut usable: Vec<Vec<f64>> = vec![];
+            for t in tvs.iter() {
+                let mut sp = PPSpline::<f64>::new(k, t.clone(), None);
+                // a solve on unrelated sites in between, so that nothing of the previous candidate is left
+                let mut other = PPSpline::<f64>::new(2, vec![0.0, 0.0, 1.0, 1.0], None);
+                let _ = other.csolve(&[0.0, 1.0], &[1.0, 2.0], 0, 0, false);
+                if sp.csolve(&tau, &y, ln, ln, false).is_ok() && (0..=16).all(|q| sp.ppdnev_single(&(q as f64 * 0.25), 0).map_or(false, |v| close_scaled(v, poly(0, q as f64 * 0.25), 1e-7, 8.0))) {
+                    usable.push(t.clone());
+                }
+            }
+            for ta in usable.iter() {
+                for tb in usable.iter() {
+                    if ta == tb {
+                        continue;
+                    }
+                    acc.nontrivial();
+                    let mut sa = PPSpline::<f64>::new(k, ta.clone(), None);
+                    let mut sb = PPSpline::<f64>::new(k, tb.clone(), None);
+                    let mut sbd = PPSpline::<Dual>::new(k, tb.clone(), None);
+                    let yd: Vec<Dual> = y.iter().enumerate().map(|(j, v)| Dual::new(*v, vec![format!("y{}", j)])).collect();
+                    acc.evals_add(3);
+                    let ra = sa.csolve(&tau, &y, ln, ln, false).is_ok();
+                    let rb = sb.csolve(&tau, &y, ln, ln, false).is_ok();
+                    let rbd = sbd.csolve(&tau, &yd, ln, ln, false).is_ok();
+                    if !ra || !rb || !rbd {
+                        acc.violate("two-splines/csolve/unexpected-error", idx, cj(), json!({"first": ta, "second": tb}), json!([ra, rb, rbd]));
+                        return;
+                    }
+                    for q in 0..=16 {
+                        let x = q as f64 * 0.25;
+                        for mm in 0..k.min(3) {
+                            acc.evals_add(2);
+                            let want = poly(mm, x);
+                            let got = sb.ppdnev_single(&x, mm).unwrap_or(f64::NAN);
+                            let gotd = sbd.ppdnev_single(&x, mm).map(|d| d.real()).unwrap_or(f64::NAN);
+                            if !close_scaled(got, want, 1e-7, 8.0) || !close_scaled(gotd, want, 1e-7, 8.0) {
+                                acc.violate(&format!("two-splines/second-object-off-its-polynomial/m{}", mm), idx, cj(), json!({"solved_before": ta, "knots": tb, "x": x, "m": mm, "want": want}), json!([got, gotd]));
+                                return;
+                            }
+                        }
+                    }
+                }
+            }
+            acc.outcome(&(k, natural, usable.len()));
+            acc.sample(|| json!({"case": cj(), "knot_vectors": usable.len()}));
+        }
         Case::Resolve { k, interior } => {
             let k = *k;
             let tr = knots(k, interior);
@@ -759,6 +860,10 @@ pub fn cases(tier: Tier) -> Vec<Case> {
     let kmax = tier.pick(4, 6);
     let mut out = vec![];
     for k in 2..=kmax {
+        out.push(Case::TwoSplines { k, natural: false });
+        if k == 4 {
+            out.push(Case::TwoSplines { k, natural: true });
+        }
         out.push(Case::Types { k });
         for interior in interior_configs(k) {
             if interior.iter().map(|(_, m)| *m).sum::<usize>() <= 3 {
@@ -830,6 +935,7 @@ pub fn run(ctx: &Ctx, replay_file: Option<String>) -> ! {
                 Case::Solve { k, tau8, .. } => format!("Solve k={} n={}", k, tau8.len()),
                 Case::Types { .. } => "Types".into(),
                 Case::Resolve { k, .. } => format!("Resolve k={}", k),
+                Case::TwoSplines { k, .. } => format!("TwoSplines k={}", k),
                 Case::Long { .. } => "Long".into(),
             };
             *m.entry(k).or_default() += 1;
